@@ -12,8 +12,12 @@ COQ = os.path.join(ROOT, "coq")
 CACHE = os.path.join(ROOT, ".cache")
 TARGET = os.path.join(CACHE, "target")
 HARNESS = os.path.join(ROOT, "harness")
-REPO = "/repo"
+REPO = os.environ.get("VERIF_REPO", "/repo")   # scratch worktrees for mutation experiments only; checks use /repo
 NCPU = os.cpu_count() or 4
+SCRATCH = REPO != "/repo"
+_TAG = hashlib.sha1(REPO.encode()).hexdigest()[:8]
+WORK = os.path.join(CACHE, "scratch-" + _TAG) if SCRATCH else CACHE   # cases / coqrun / audit files
+OUT = WORK if SCRATCH else ROOT                                         # evidence/ and replays/
 
 AXIOM_ALLOW = {
     # standard-library axioms that may appear (named in DESIGN.md section 3)
@@ -112,7 +116,7 @@ def coq_make(targets, timeout=1500):
 def coq_audit(prop, theorems, module=None):
     """Compile a tiny file that re-checks the pinned theorem names exist and prints their axioms."""
     module = module or f"Echo.Props.{prop}"
-    d = os.path.join(CACHE, "audit")
+    d = os.path.join(WORK, "audit")
     os.makedirs(d, exist_ok=True)
     f = os.path.join(d, f"Audit{prop}.v")
     lines = [f"Require Import {module}."]
@@ -224,7 +228,7 @@ def coq_eval(tag, preamble, terms, shards=None, timeout=900):
     """Evaluates each Gallina term with vm_compute (sharded over coqc processes); returns parsed values."""
     if not terms:
         return []
-    d = os.path.join(CACHE, "coqrun", tag)
+    d = os.path.join(WORK, "coqrun", tag)
     shutil.rmtree(d, ignore_errors=True)
     os.makedirs(d)
     shards = shards or min(NCPU, max(1, len(terms) // 8))
@@ -268,6 +272,29 @@ def sync_lock():
         shutil.copy(src, dst)
 
 
+def _harness_dir():
+    """/verif/harness for /repo; for VERIF_REPO=<scratch worktree> a rewritten copy with its own target dir."""
+    global TARGET
+    if REPO == "/repo":
+        return HARNESS
+    tag = hashlib.sha1(REPO.encode()).hexdigest()[:8]
+    d = os.path.join(CACHE, "harness-" + tag)
+    TARGET = os.path.join(CACHE, "target-" + tag)
+    os.makedirs(d, exist_ok=True)
+    for root, dirs, files in os.walk(HARNESS):
+        dirs[:] = [x for x in dirs if x != "target"]
+        for f in files:
+            sp = os.path.join(root, f)
+            dp = os.path.join(d, os.path.relpath(sp, HARNESS))
+            os.makedirs(os.path.dirname(dp), exist_ok=True)
+            data = open(sp, "rb").read()
+            if f == "Cargo.toml":
+                data = data.replace(b'"/repo/', ('"' + REPO.rstrip("/") + "/").encode())
+            if not os.path.exists(dp) or open(dp, "rb").read() != data:
+                open(dp, "wb").write(data)
+    return d
+
+
 def cargo_build(bins, release=False, features=None, timeout=1700, extra_env=None):
     """P3: (re)build harness binaries against /repo's current working tree (hooks on)."""
     sync_lock()
@@ -278,9 +305,10 @@ def cargo_build(bins, release=False, features=None, timeout=1700, extra_env=None
         cmd += ["--bin", b]
     if features:
         cmd += ["--features", ",".join(features)]
+    hd = _harness_dir()
     env = {"CARGO_TARGET_DIR": TARGET}
     if extra_env: env.update(extra_env)
-    rc, out = sh(cmd, cwd=HARNESS, timeout=timeout, env=env)
+    rc, out = sh(cmd, cwd=hd, timeout=timeout, env=env)
     if rc:
         raise Broken("harness build failed against /repo working tree:\n" + out[-3000:])
     prof = "release" if release else "debug"
@@ -382,9 +410,9 @@ class Run:
 
     def finish(self):
         prop = self.prop
-        evd = os.path.join(ROOT, "evidence")
+        evd = os.path.join(OUT, "evidence")
         os.makedirs(evd, exist_ok=True)
-        rdir = os.path.join(ROOT, "replays")
+        rdir = os.path.join(OUT, "replays")
         os.makedirs(rdir, exist_ok=True)
         kf = known_findings(prop)
         lines, fail = [], False
@@ -460,7 +488,7 @@ def load_corpus(prop):
 
 
 def write_cases(tag, cases):
-    d = os.path.join(CACHE, "cases")
+    d = os.path.join(WORK, "cases")
     os.makedirs(d, exist_ok=True)
     p = os.path.join(d, f"{tag}.txt")
     open(p, "w").write("\n".join(cases) + "\n")
